@@ -161,6 +161,7 @@ struct Run {
   int spin_resumes = 0;
   uint64_t choice_ord = 0;
   uint64_t picks = 0;
+  uint64_t plain_since_step = 0;
 
   // strategy
   int strategy = STRAT_RW;
